@@ -16,7 +16,7 @@ def manifestOfJson (j : Json) : Except String Manifest := do
   let deps ← match jopt j "deps" with | some d => idsOfJson d | none => pure []
   let mutFrom ← match jopt j "mutFrom" with | some d => optId d | none => pure none
   return { id := id, deps := deps, depsRaw := (jstr j "depsRaw").toOption.getD "", keep := jboolD j "keep" false,
-           detach := jboolD j "detach" false, rev := (jint j "rev").toOption.getD 0, mutFrom := mutFrom, mutExt := jboolD j "mutExt" false,
+           detach := jboolD j "detach" false, rev := (jint j "rev").toOption.getD 0, mutFrom := mutFrom, mutExt := jboolD j "mutExt" false, mutBad := jboolD j "mutBad" false,
            owner := (jstr j "owner").toOption.getD "" }
 
 def idOfKey (k : String) : Id :=
